@@ -207,6 +207,48 @@ theorem C17_strict_sni_counterexample :
       routeAllowed true (some N) (snapshot (fun _ _ => false) init (some N)) N = true :=
   p_strict_sni_counterexample
 
+-- ------------------------------------------- C07 on the certificate store --
+
+/-- **C07 (worker certificate store): a command answered with an error leaves no
+    trace.** For *every* resolver state (reachable or not, no invariant needed)
+    and every add / remove / replace command: if the answer is an error the state
+    is exactly the state before. Covers all error branches that exist
+    (`C07_resolver_error_iff`): unparsable PEM / key, names refused by `try_from`
+    (add and replace alike — before anything is touched, so the old certificate of
+    a replace stays), a fingerprint text that is not hex. `replace` with a
+    well-formed but absent old fingerprint is answered Ok by the code and by the
+    model (the new certificate is added, nothing is removed). -/
+theorem C07_resolver_error_is_noop (s : State) (op : Op) (h : (step s op).2 = Out.err) :
+    (step s op).1 = s := p_resolver_error_is_noop s op h
+
+/-- the error branches of the resolver commands, exactly -/
+theorem C07_resolver_error_iff (s : State) (op : Op) (hd : s.dead = false) :
+    (step s op).2 = Out.err ↔
+      (match op with
+        | .add c => prepare c = none
+        | .replace _ c => prepare c = none
+        | .addInvalid => True
+        | .removeInvalid => True
+        | .replaceInvalid _ => True
+        | .remove _ => False) := p_resolver_error_iff s op hd
+
+/-- **… and whatever the answer, a command touches only the certificates it
+    names**: the store entry of every other fingerprint is unchanged. -/
+theorem C07_resolver_touches_only_named (s : State) (op : Op) (fp : Fp) (h : ¬ Touches fp op) :
+    KMap.get? (step s op).1.certs fp = KMap.get? s.certs fp :=
+  p_resolver_touches_only_named s op fp h
+
+-- non-vacuity: a replace that fails late in the command (refused name after a valid one, old
+-- certificate loaded and serving) is answered with an error; an absent old fingerprint is not an error
+example :
+    let www : Bytes := [119,119,119,46,101,120,97,109,112,108,101,46,111,114,103]
+    let s := run init [.add ⟨1, [www], 10⟩]
+    (step s (.replace (some 1) ⟨2, [www, [46,120]], 20⟩)).2 = .err ∧
+    (step s (.replace (some 7) ⟨2, [www], 20⟩)).2 = .fp 2 ∧
+    (step s .removeInvalid).2 = .err ∧ (step s (.remove 9)).2 = .ok := by decide
+example : ¬ Touches 1 (.replace (some 7) ⟨2, [], 20⟩) ∧ Touches 7 (.replace (some 7) ⟨2, [], 20⟩) := by
+  simp [Touches]
+
 -- ------------------------------------------------- regression examples --
 
 -- formerly `C17_bad_name_panics` (finding certificate-name-panics-worker, fixed in /repo 8d9b64c):
